@@ -260,7 +260,7 @@ func randColor(rng *gen.Rng) vaxis.Color {
 	}
 }
 
-var links = [][2]string{{"", ""}, {"", ""}, {"http://a", ""}, {"http://a", "id=1"}, {"http://b", "id=2"}, {"", "id=9"}}
+var links = [][2]string{{"", ""}, {"", ""}, {"http://a", ""}, {"http://a", "id=1"}, {"http://b", "id=2"}, {"", "id=9"}, {"http://c/v;s=4?x=1", "id=3"}}
 
 func randStyle(rng *gen.Rng, r *hx.Run) vaxis.Style {
 	if rng.Chance(1, 4) {
